@@ -286,7 +286,8 @@ def bmc(prog, sem, syms, query, init_idx, shared, max_solutions=6):
         sols.append(dict(schedule=schedule, divergent_reads=sorted(set(hit))))
         # block this class of violation: same set of divergent (thread, read) pairs / same final corruption
         if query == "read" and hit:
-            solver.add(z3.Not(z3.And(*[d for t, k, d, _ in diverge if (t, k) in set(hit)])))
+            # (a read has one divergence term per step: it diverges if it does so at the step where it happens)
+            solver.add(z3.Not(z3.And(*[z3.Or(*[d for t2, k2, d, _ in diverge if (t2, k2) == (t, k)]) for t, k in sorted(set(hit))])))
         else:
             break
     return dict(result=r if not sols else "sat", solutions=sols, steps=L, queries=nq, solver_s=round(time.time() - t0, 3))
@@ -420,23 +421,38 @@ WATCH = ("coerce", "dtype", "name")
 
 class AttrHooks:
     def __init__(self):
-        self.on = lambda kind, obj, attr, val: None
+        self.on = lambda kind, obj, attr, val: None    # after a read / before a write, with the value (tracing)
+        self.pre = lambda kind, obj, attr: None        # BEFORE the operation takes effect (the replay scheduler switches threads here)
+        self.watch = set(WATCH)     # attribute names whose reads and writes are events
+        self.discover = None        # while a set: every attribute WRITE on a watched object adds its name (write discovery pass)
 
 
 AH = AttrHooks()
+ABSENT = "<absent>"
 
 
 def _mk_watched(base):
     class Watched(base):
         def __getattribute__(self, name):
-            val = base.__getattribute__(self, name)
-            if name in WATCH and base.__getattribute__(self, "__dict__").get("_pv_armed"):
+            if name in AH.watch and base.__getattribute__(self, "__dict__").get("_pv_armed"):
+                AH.pre("r", self, name)
+            try:
+                val = base.__getattribute__(self, name)
+            except AttributeError:
+                if name in AH.watch and not name.startswith("__") and base.__getattribute__(self, "__dict__").get("_pv_armed"):
+                    AH.on("r", self, name, ABSENT)  # `getattr(obj, name, None)` on a lazily created attribute is a read, too
+                raise
+            if name in AH.watch and base.__getattribute__(self, "__dict__").get("_pv_armed"):
                 AH.on("r", self, name, val)
             return val
 
         def __setattr__(self, name, val):
-            if name in WATCH and self.__dict__.get("_pv_armed"):
-                AH.on("w", self, name, val)
+            if self.__dict__.get("_pv_armed") and name != "_pv_armed":
+                if AH.discover is not None:
+                    AH.discover.add(name)
+                if name in AH.watch:
+                    AH.pre("w", self, name)
+                    AH.on("w", self, name, val)
             base.__setattr__(self, name, val)
 
     # the backend registry is keyed by the exact schema class: resolve through the real class
@@ -491,6 +507,25 @@ def attr_scenario(which):
         calls = {"T1": ("pd.validate(int index, schema coerce)", lambda: schema.validate(pd.DataFrame({"a": [1, 2]}))),
                  "T2": ("pd.Index.validate(int index, no coerce)", lambda: idx.validate(pd.DataFrame({"a": [3, 4]})))}
         comps = [schema.index]
+    elif which == "pandas-dtype-only":  # no declared columns: the components are generated per call from the frame's labels
+        DFS = _mk_watched(pa.DataFrameSchema)
+        schema = DFS(dtype=float)
+        calls = {"T1": ("pd.validate(a, b)", lambda: schema.validate(pd.DataFrame({"a": [1.0], "b": [2.0]}))),
+                 "T2": ("pd.validate(a, b, c: text)", lambda: schema.validate(pd.DataFrame({"a": [1.0], "b": [2.0], "c": ["x"]})))}
+        comps = [schema]
+    elif which == "pandas-frame-object":  # the DataFrameSchema object itself is watched (whatever attribute a validation may write on it)
+        DFS = _mk_watched(pa.DataFrameSchema)
+        schema = DFS({"a": pa.Column(float, Check.ge(0), coerce=True), "b": pa.Column(int, required=False)}, unique=["a"], strict="filter", coerce=True,
+                     index=pa.Index(int))
+        calls = {"T1": ("pd.validate(a int, b)", lambda: schema.validate(pd.DataFrame({"a": [1, 2], "b": [1, 2]}))),
+                 "T2": ("pd.validate(a, x; duplicated a)", lambda: schema.validate(pd.DataFrame({"a": [3.0, 3.0], "x": [0, 0]}), lazy=True))}
+        comps = [schema]
+    elif which == "polars-frame-object":
+        DFS = _mk_watched(pap.DataFrameSchema)
+        schema = DFS({"a": pap.Column(float, Check.ge(0), coerce=True), "b": pap.Column(int, required=False)}, strict="filter", coerce=True)
+        calls = {"T1": ("pl.validate(a int, b)", lambda: schema.validate(pl.DataFrame({"a": [1, 2], "b": [1, 2]}))),
+                 "T2": ("pl.validate(a, x)", lambda: schema.validate(pl.DataFrame({"a": [-3.0, 3.0], "x": [0, 0]}), lazy=True))}
+        comps = [schema]
     elif which == "polars-coerce":
         Col = _mk_watched(pap.Column)
         schema = pap.DataFrameSchema({"a": Col(float, Check.ge(0), coerce=True)})
@@ -513,13 +548,22 @@ def run_attr_template(t, tier, seed):
         outcome_of(f)  # warm-up
     for c in comps:
         c.__dict__["_pv_armed"] = True
+    # write discovery: whatever attribute a validation writes on a watched (shared) object becomes an event location, in addition
+    # to the three attributes the container overrides by design
+    AH.watch, AH.discover = set(WATCH), set()
+    for name, f in calls.values():
+        outcome_of(f)
+    AH.watch, AH.discover = set(WATCH) | {a for a in AH.discover if not a.startswith("__")}, None
+    res["samples"].append(dict(template=t.tid, watched_attributes=sorted(AH.watch)))
     solo = {}
     for tn, (name, f) in calls.items():
+        _reset_lazy(comps)  # every traced run starts from the same state: lazily created attributes are absent
         ev = []
         AH.on = lambda kind, obj, attr, val, ev=ev: ev.append((kind, (ids.get(id(obj), -1), attr), val)) if id(obj) in ids else None
         out = outcome_of(f)
         AH.on = lambda kind, obj, attr, val: None
         solo[tn] = (ev, out)
+    _reset_lazy(comps)
     # value domain per location
     locs = sorted({e[1] for ev, _ in solo.values() for e in ev})
     dom = {l: [] for l in locs}
@@ -571,9 +615,10 @@ def run_attr_template(t, tier, seed):
             confirmed = bool(rp["differing"]) or not rp["schema_restored"]
             detail = f"replayed on OS threads: outcomes {rp['outcomes']} (solo {[solo[x][1] for x in calls]}), schema restored: {rp['schema_restored']}"
             if not confirmed:
-                res["samples"].append(dict(template=t.tid, schedule="".join(s[-1] for s in sol["schedule"]), note="divergent attribute read without observable effect", replay=detail))
+                res["samples"].append(dict(template=t.tid, schedule="".join(s[-1] for s in sol["schedule"]), note="divergent attribute read without observable effect",
+                                           divergent_reads=[list(map(str, x)) for x in sol["divergent_reads"]][:4], replay=detail))
                 continue
-            res["cex"].append(dict(tid=t.tid, label=label, vals=dict(schedule="".join(s[-1] for s in sol["schedule"])),
+            res["cex"].append(dict(tid=t.tid, label=label, vals=dict(schedule="".join(s[-1] for s in sol["schedule"]), watch=sorted(AH.watch)),
                                    facts=dict(scenario=which, differing={k: list(x) for k, x in rp["differing"].items()}, schema_restored=rp["schema_restored"],
                                               divergent_reads=[list(map(str, x)) for x in sol["divergent_reads"]]),
                                    confirmed=True, detail=detail, args=[which]))
@@ -700,9 +745,22 @@ def _key(v):
     return repr(v)
 
 
+def _reset_lazy(comps):
+    """remove the attributes a validation created on the shared objects (memos): the common initial state of every traced run,
+    of the schedule model and of the replay"""
+    for c in comps:
+        for a in AH.watch - set(WATCH):
+            c.__dict__.pop(a, None)
+
+
 def _attr_now(comps, l):
     i, attr = l
-    return object.__getattribute__(comps[i], attr) if attr != "dtype" else comps[i].__dict__.get("_dtype", getattr(type(comps[i]), "dtype", None) and comps[i].dtype)
+    if attr == "dtype":
+        return comps[i].__dict__.get("_dtype", getattr(type(comps[i]), "dtype", None) and comps[i].dtype)
+    try:
+        return object.__getattribute__(comps[i], attr)
+    except AttributeError:
+        return ABSENT
 
 
 def bmc_rw(prog, locs, dom, query, max_solutions=24, one_preemption=False):
@@ -757,15 +815,17 @@ def bmc_rw(prog, locs, dom, query, max_solutions=24, one_preemption=False):
             break
         m = solver.model()
         schedule = [threads[m.eval(c, model_completion=True).as_long()] for c in sched]
-        hit = [(t, k) for t, k, d in diverge if z3.is_true(m.eval(d, model_completion=True))]
+        hit = sorted({(t, k) for t, k, d in diverge if z3.is_true(m.eval(d, model_completion=True))})
         sols.append(dict(schedule=schedule, divergent_reads=[(t, prog[t][k][1]) for t, k in hit][:6]))
+        # (a read has one divergence term per step: it diverges if it does so at the step where it happens)
+        per_read = lambda t, k: z3.Or(*[d for t2, k2, d in diverge if (t2, k2) == (t, k)])  # noqa: E731
         if one_preemption and len(threads) == 2:
             solver.add(z3.Or(z3.Int("a") != m.eval(z3.Int("a"), model_completion=True), z3.Int("role") != m.eval(z3.Int("role"), model_completion=True)))
             # schedules that expose the same set of divergent reads are equivalent for the replay: ask for a new set
             if hit:
-                solver.add(z3.Not(z3.And(*[d for t, k, d in diverge if (t, k) in set(hit)])))
+                solver.add(z3.Not(z3.And(*[per_read(t, k) for t, k in hit])))
         elif query == "read" and hit:
-            solver.add(z3.Not(z3.And(*[d for t, k, d in diverge if (t, k) in set(hit)])))
+            solver.add(z3.Not(z3.And(*[per_read(t, k) for t, k in hit])))
         else:
             break
     return dict(result="sat" if sols else r, solutions=sols, steps=L, queries=nq, solver_s=round(time.time() - t0, 3))
@@ -777,12 +837,13 @@ def replay_attr(which, schedule, solo):
         outcome_of(f)
     import tmpl
 
+    _reset_lazy(comps)
     fp0 = tmpl.fingerprint(schema)
     ids = {id(c) for c in comps}
     for c in comps:
         c.__dict__["_pv_armed"] = True
     sch = Scheduler(schedule, list(calls))
-    AH.on = lambda kind, obj, attr, val: sch.on_op(kind, None) if id(obj) in ids else None
+    AH.pre = lambda kind, obj, attr: sch.on_op(kind, None) if id(obj) in ids else None
     res = {}
 
     def body(t):
@@ -792,7 +853,7 @@ def replay_attr(which, schedule, solo):
     ths = [threading.Thread(target=body, args=(t,), name=t) for t in calls]
     [t.start() for t in ths]
     [t.join(60) for t in ths]
-    AH.on = lambda kind, obj, attr, val: None
+    AH.pre = lambda kind, obj, attr: None
     for c in comps:
         c.__dict__["_pv_armed"] = False
     differing = {t: (solo[t][1], res.get(t)) for t in calls if res.get(t) != solo[t][1]}
@@ -815,6 +876,7 @@ def replay(c):
         schema, comps, calls = attr_scenario(which)
         solo = {tn: ([], outcome_of(f)) for tn, (name, f) in calls.items()}
         sched = ["T" + ch for ch in c["vals"]["schedule"]]
+        AH.watch = set(c["vals"].get("watch") or WATCH)
         rp = replay_attr(which, sched, solo)
         print("schedule:", c["vals"]["schedule"], "outcomes:", rp["outcomes"], "solo:", {k: v[1] for k, v in solo.items()}, "schema restored:", rp["schema_restored"])
         bad = bool(rp["differing"]) or not rp["schema_restored"]
@@ -843,7 +905,7 @@ def templates(tier, seed):
             continue
         ts.append(Template(f"CFG/{name}", cfg_case, (name,)))
     for which in ("pandas-coerce", "pandas-regex-name", "pandas-df-dtype", "pandas-schema-coerce", "pandas-schema-coerce-2", "pandas-schema-coerce-regex",
-                  "pandas-index-coerce", "polars-coerce"):
+                  "pandas-index-coerce", "polars-coerce", "pandas-dtype-only", "pandas-frame-object", "polars-frame-object"):
         ts.append(Template(f"ATTR/{which}", cfg_case, (which,)))
     for which in COLD:
         if tier == "quick" and which in ("model||model", "pd.frame||pl.frame"):
